@@ -63,7 +63,7 @@ pub fn gen_random(seed: u64, idx: u64) -> Plan {
     // one run in six goes through the HTTPS acceptor (concurrent TLS
     // negotiations; the peer address travels with the negotiated stream)
     let tls = r.chance(1, 6);
-    let h2_conn = if !tls && r.chance(1, 4) { Some(r.usize_in(0, nconns - 1)) } else { None };
+    let h2_conn = if r.chance(1, 4) { Some(r.usize_in(0, nconns - 1)) } else { None };
     for i in 0..nconns {
         let mut c = blank_conn(6000 + i as u16);
         c.start_ms = r.range(0, 40);
@@ -156,7 +156,7 @@ pub fn gen_random(seed: u64, idx: u64) -> Plan {
                 nonce += 1;
             }
         }
-        if tls {
+        if tls && c.kind != ConnKind::H2 {
             c.kind = ConnKind::Tls;
         }
         fit_c2s(&mut c);
